@@ -107,7 +107,7 @@ namespace bxdecay0 {
     }
     // M-shell
   label_3:
-    for (int i = 1; i <= Lhole; i++) {
+    for (int i = 1; i <= Mhole; i++) {
       // i = 1, Mhole;
       decay0_gamma(prng_, event_, 0.003, tclev_, thlev_, tdlev_); // X ray M-inf
     }
